@@ -62,7 +62,7 @@ func logTail(calls []string, n int) []string {
 func C09(tier string) int {
 	res := NewResult("C09", tier, "fault_enumeration")
 	bound := 1
-	corpus := append(append(CorpusWithHooks(), AddressingCorpus()...), HistoryCorpus()...)
+	corpus := append(append(append(CorpusWithHooks(), AddressingCorpus()...), HistoryCorpus()...), TypeCorpus()...)
 	if res.Thorough() {
 		bound = 2
 	}
@@ -129,7 +129,7 @@ func ReplayC09(rep M) {
 	for _, c := range rep["choices"].([]interface{}) {
 		choices = append(choices, int(c.(float64)))
 	}
-	for _, sc := range append(append(CorpusWithHooks(), AddressingCorpus()...), HistoryCorpus()...) {
+	for _, sc := range append(append(append(CorpusWithHooks(), AddressingCorpus()...), HistoryCorpus()...), TypeCorpus()...) {
 		if sc.Name == name {
 			out := sc.Exec(mc.NewExec(choices), true)
 			for _, c := range out.App.Log {
